@@ -226,6 +226,36 @@ func (fr *Frame) val(v ssa.Value) *Val {
 func (fr *Frame) run(in *State, guard *Term) {
 	c := fr.c
 	fr.analyse()
+	// functions that occur only as the callee of a static call are not function values of this frame
+	fr.calleeOperands = map[*ssa.Function]bool{}
+	usedAsValue := map[*ssa.Function]bool{}
+	for _, b := range fr.fn.Blocks {
+		for _, in := range b.Instrs {
+			var calleeFn *ssa.Function
+			if ci, ok := in.(ssa.CallInstruction); ok {
+				if f, ok := ci.Common().Value.(*ssa.Function); ok && !ci.Common().IsInvoke() {
+					calleeFn = f
+				}
+			}
+			for _, op := range in.Operands(nil) {
+				if op == nil || *op == nil {
+					continue
+				}
+				if f, ok := (*op).(*ssa.Function); ok {
+					if ci, isCall := in.(ssa.CallInstruction); isCall && f == calleeFn && op == &ci.Common().Value {
+						continue
+					}
+					usedAsValue[f] = true
+				}
+			}
+			if calleeFn != nil {
+				fr.calleeOperands[calleeFn] = true
+			}
+		}
+	}
+	for f := range usedAsValue {
+		delete(fr.calleeOperands, f)
+	}
 	fr.vals = map[ssa.Value]*Val{}
 	fr.reach = map[*ssa.BasicBlock]*Term{}
 	fr.out = map[*ssa.BasicBlock]*State{}
@@ -1022,7 +1052,8 @@ func (fr *Frame) convert(at ssa.Instruction, x *Val, from, to types.Type) *Val {
 	case fs == SInt && ts == SReal:
 		return scalar(mk(SReal, "(to_real %s)", x.T.S), to)
 	case fs == SReal && ts == SInt:
-		return scalar(mk(SInt, "(to_int %s)", x.T.S), to)
+		// Go truncates toward zero (overflow is not modelled: integers are mathematical)
+		return scalar(mk(SInt, "(ite (>= %s 0.0) (to_int %s) (- (to_int (- %s))))", x.T.S, x.T.S, x.T.S), to)
 	case fs == SInt && ts == SStr:
 		c.sc.declareFun("rune2s", []Sort{SInt}, SStr)
 		return scalar(tApp(SStr, "rune2s", x.T), to)
